@@ -66,6 +66,9 @@ func pfKind(t types.Type) string {
 		return ""
 	}
 	pkg, name := pfNamed(t)
+	if _, isPtr := types.Unalias(t).(*types.Pointer); isPtr && pkg == "math/big" && name == "Int" {
+		return "big" // *big.Int: its value; only fresh, never copied pointers are translated (emit_purefuns_slices.go)
+	}
 	if _, isPtr := types.Unalias(t).(*types.Pointer); !isPtr {
 		switch {
 		case pkg == "cosmossdk.io/math" && name == "Int":
@@ -218,7 +221,7 @@ func init() {
 		min_dec max_dec min_int max_int wrap_u64 wrap_i64 safe_math collapse to_option Unrecognised lift_ovf lift_pan
 		is_int64 is_uint64 fold_left length string app cons nil xorb eqb zlen zsum nth_z set_nth
 		for_range for_loop range_loop add64_sum add64_carry sub64_diff sub64_borrow mul64_hi mul64_lo out_of_cell
-		repeat firstn skipn rev map two128 dec_digits`) {
+		repeat firstn skipn rev map two128 dec_digits dec_text_len big_exp`) {
 		pfReserved[w] = true
 	}
 }
@@ -922,6 +925,18 @@ func (t *pfTr) call(x *ast.CallExpr, en pfEnv, hint string, k func([]string) str
 			}
 		}
 	}
+	// *big.Int: Int.BigInt() (a fresh copy), nothing else as an expression
+	if recv != nil && t.kindOf(recv) == "int" && callee.Name() == "BigInt" && len(x.Args) == 0 {
+		return t.expr(recv, en, "", func(r string) string {
+			if pfOpaque(r) {
+				return t.unrec(x, "BigInt of a nil or untranslated Int")
+			}
+			return one(r)
+		})
+	}
+	if recv != nil && t.kindOf(recv) == "big" {
+		return t.unrec(x, "method of *big.Int")
+	}
 	// method of Int / Dec
 	if recv != nil {
 		rk := t.kindOf(recv)
@@ -1075,6 +1090,18 @@ func (t *pfTr) named(x *ast.CallExpr, full string, recv ast.Expr, en pfEnv, hint
 	}
 	if pkgPath == "math/bits" && recv == nil {
 		return t.bitsCall(x, name, en, k)
+	}
+	if pkgPath == "math/big" && recv == nil && name == "NewInt" && len(x.Args) == 1 && t.kindOf(x.Args[0]) == "i64" {
+		return t.expr(x.Args[0], en, hint, one) // a fresh *big.Int holding the int64
+	}
+	if pfIsMathPkg(pkgPath) && recv == nil && name == "NewIntFromBigInt" && len(x.Args) == 1 && t.kindOf(x.Args[0]) == "big" {
+		// int.go:109: nil -> Int{} (a translated *big.Int is never nil); BitLen > 256 panics "NewIntFromBigInt() out of bound"
+		return t.expr(x.Args[0], en, "", func(a string) string {
+			if pfOpaque(a) {
+				return t.unrec(x, "NewIntFromBigInt of an untranslated value")
+			}
+			return t.mop(x, "g_int_of_big "+a, hint, one)
+		})
 	}
 	if strings.HasSuffix(pkgPath, "comdex/types") && name == "DecApproxSqrt" && len(x.Args) == 1 {
 		return t.expr(x.Args[0], en, "", func(a string) string {
@@ -1462,6 +1489,9 @@ func (t *pfTr) stmt(s ast.Stmt, en pfEnv, k func(pfEnv) string) string {
 				return k(en)
 			}
 			if r, ok := t.cellWrite(c, en, k); ok {
+				return r
+			}
+			if r, ok := t.bigExpStmt(c, en, k); ok {
 				return r
 			}
 			if id, ok := c.Fun.(*ast.Ident); ok {
